@@ -14,4 +14,5 @@ let lookup (p : string) : Model.sexp -> Model.sexp =
   | "c13" -> Model.run_c13
   | "c20" -> Model.run_c20
   | "c07" -> Model.run_c07
+  | "c10" -> Model.run_c10
   | _ -> failwith ("unknown property " ^ p)
